@@ -350,6 +350,10 @@ CLAIMS = {
                   'source statement by statement on every run (gen_apply_diff_is_model, gen_apply_diff_is_click); the codec '
                   'functions regenerated from the source on every run (statement-by-statement translator, equality with the '
                   'hand-written model proved)',
+                  'source statement by statement on every run (gen_apply_diff_is_model, gen_apply_diff_is_click); likewise '
+                  'tpStateLevel = depthList (gen_state_level_is_model, gen_state_level_default; pathsList_le_depth, '
+                  'depthList_attained) and tpValuesIds = allIdsList / expandAllState (gen_values_ids_is_model, '
+                  'gen_values_ids_is_expand_all)',
         ref='DESIGN.md §5 C20'),
     'C06': dict(
         text='Lean 4 theorems about the parser model (hand-compiled scanners, tokeniser, attribute grammar, tag roles, '
